@@ -644,3 +644,121 @@ def arith(op, a, b, floating):
             return (0, (1 << bits) - 1)
         return None
     return None
+
+
+def _norm_name(s):
+    s = s or ''
+    if s.startswith('m_'):
+        s = s[2:]
+    return s.replace('_', '').lower()
+
+
+def swapped_args_rule(ctx, rid, files, minimum):
+    """argument/parameter name agreement: at a call of a function of the repository whose arguments are plain names
+    (members m_x, locals, parameters), two arguments must not be passed crosswise, i.e. argument i carries the name of
+    parameter j while argument j carries the name of parameter i (names compared without the m_ prefix, case and
+    underscores).  Only calls where at least two arguments are named like parameters of the callee are instances."""
+    fb = ctx.fb
+    byname = {}
+    for f in fb.functions:
+        if f.params:
+            byname.setdefault((f.name, f.sig), f)
+    n = 0
+    seen = set()
+    for fn in fb.functions:
+        if not fn.relfile.startswith(files) or not fn.nodes:
+            continue
+        ident = (fn.name, fn.sig)
+        if ident in seen:
+            continue
+        seen.add(ident)
+        for c, v in sorted(fn.nodes.items()):
+            if v['k'] not in ('CallExpr', 'CXXMemberCallExpr', 'CXXConstructExpr') or not v.get('repo'):
+                continue
+            cal = byname.get((v.get('callee'), v.get('sig')))
+            args = v.get('args', [])
+            if cal is None or len(args) < 2 or len(cal.params) < len(args):
+                continue
+            pn = [_norm_name(p.get('name')) for p in cal.params[:len(args)]]
+            an = []
+            for a in args:
+                x = fn.nodes.get(fn.strip(a, casts=True), {})
+                an.append(_norm_name(x.get('name')) if x.get('k') in ('MemberExpr', 'DeclRefExpr') and x.get('rk') != 'method' else '')
+            named = [i for i in range(len(args)) if an[i] and an[i] in pn]
+            if len(named) < 2:
+                continue
+            n += 1
+            ctx.touch(fn)
+            swaps = [(i, j) for i in named for j in named if i < j and an[i] != an[j] and an[i] == pn[j] and an[j] == pn[i]]
+            ctx.ob(rid, fn, c, not swaps, 'arguments of %s' % (v.get('callee') or '').split('::')[-1],
+                   'crosswise: %s' % ', '.join('argument %d is "%s" but parameter %d is "%s"' % (i + 1, an[i], i + 1, pn[i]) for i, j in swaps)
+                   if swaps else 'named arguments in parameter order')
+    if n < minimum:
+        from facts import AnalysisBroken
+        raise AnalysisBroken('%s: only %d calls with arguments named like parameters found' % (rid, n))
+
+
+_FIND = ('find', 'rfind', 'find_first_of', 'find_last_of', 'find_first_not_of', 'find_last_not_of')
+_SHRINK = ('operator=', 'erase', 'resize', 'clear', 'assign', 'swap', 'pop_back')
+_POSUSE = ('substr', 'at', 'erase', 'insert', 'replace', 'compare')
+
+
+def stale_position_rule(ctx, rid, scope, minimum):
+    """a position found in a std::string (pos = s.find...(...)) is valid for that content of s only: a use of the position as
+    the start argument of s.substr/at/erase/insert/replace/compare or as subscript s[pos...] must not be reachable from the
+    find through a statement that replaces or shrinks s (=, erase, resize, clear, assign, swap, pop_back) unless the
+    position is assigned again in between.  substr(p) and at(p) throw std::out_of_range for p beyond the (new) size."""
+    fb = ctx.fb
+    seen = set()
+    n = 0
+    for fn in fb.functions:
+        if not scope(fn) or not fn.blocks or (fn.name, fn.sig) in seen:
+            continue
+        seen.add((fn.name, fn.sig))
+        finds = []
+        for nid, d, rhs, op, lhs in fn.assignments():
+            if rhs is None or not d:
+                continue
+            r = fn.nodes[fn.strip(rhs, casts=True)]
+            if r.get('k') == 'CXXMemberCallExpr' and (r.get('callee') or '').split('::')[-1] in _FIND and \
+                    (r.get('cls') or '').startswith('std::basic_string') and 'obj' in r:
+                finds.append((nid, d, fn.key(r['obj'])))
+        if not finds:
+            continue
+        calls = [(c, fn.nodes[c]) for c in fn.all('CXXMemberCallExpr', 'CXXOperatorCallExpr')]
+        for f, pd, sk in finds:
+            pw = set(x for x, d, rhs, op, lhs in fn.assignments() if d == pd and x != f)
+            uses, mods = [], []
+            for c, v in calls:
+                cal = (v.get('callee') or '').split('::')[-1]
+                if v['k'] == 'CXXMemberCallExpr' and 'obj' in v and fn.key(v['obj']) == sk:
+                    if cal in _POSUSE and v.get('args') and any(fn.nodes[x].get('decl') == pd for x in fn.walk(v['args'][0])):
+                        uses.append(c)
+                    if cal in _SHRINK:
+                        mods.append(c)
+                elif v['k'] == 'CXXOperatorCallExpr' and v.get('args') and fn.key(v['args'][0]) == sk:
+                    if v.get('op') == '[]' and any(fn.nodes[x].get('decl') == pd for x in fn.walk(v['args'][1])):
+                        uses.append(c)
+                    if v.get('op') == '=':
+                        mods.append(c)
+            pf = fn.pos(f)
+            for u in uses:
+                pu = fn.pos(u)
+                if pf is None or pu is None:
+                    continue
+                n += 1
+                ctx.touch(fn)
+                stale = []
+                for m in mods:
+                    pm = fn.pos(m)
+                    if pm is None:
+                        continue
+                    if fn.reaches_point(pf[0], pm, pw, start_idx=pf[1] + 1) and \
+                            fn.reaches_point(pm[0], pu, pw | {f}, start_idx=pm[1] + 1):
+                        stale.append(fn.line_of(m))
+                ctx.ob(rid, fn, u, not stale, 'position from line %d used on %s' % (fn.line_of(f), sk),
+                       '%s is replaced or shortened at line(s) %s between the search and this use' % (sk, sorted(set(stale)))
+                       if stale else 'the string is not replaced or shortened between the search and the use')
+    if n < minimum:
+        from facts import AnalysisBroken
+        raise AnalysisBroken('%s: only %d uses of searched positions found' % (rid, n))
